@@ -404,6 +404,51 @@ fn check_inplace(rep: &mut Report) {
         }
         rep.nontrivial(vmon::hash_combine(0x1b, l as u64));
     }
+    // Float destinations end up with the element-wise result BIT for bit - the sign of a zero
+    // included. The destination starts out numerically EQUAL to what will be written but with the
+    // signs of its zeros flipped (polarity-inverted silence), so "nothing to do, it already
+    // compares equal" and "the source block is silent, skip it" both leave wrong bits behind.
+    let flip = |x: f32| if x == 0.0 { -x } else { x };
+    let bits = |v: &[FF]| -> Vec<[u32; 2]> { v.iter().map(|f| [f[0].to_bits(), f[1].to_bits()]).collect() };
+    for &l in ls.iter().chain([1usize, 7, 64].iter()) {
+        for variant in 0..4usize {
+            let cs = format!("what=inplace;op=zero_sign;la={};lb={}", l, variant);
+            let src: Vec<FF> = (0..l)
+                .map(|i| match (i / 3 + variant) % 4 {
+                    0 => [0.0, -0.0],
+                    1 => [-0.0, if variant == 3 { 0.5 } else { 0.0 }],
+                    2 => [if variant >= 2 { f32::distinct(i as u64) } else { 0.0 }, 0.0],
+                    _ => [-0.0, -0.0],
+                })
+                .collect();
+            let dst0: Vec<FF> = src.iter().map(|f| [flip(f[0]), flip(f[1])]).collect();
+            // write
+            let mut a = dst0.clone();
+            let r = vmon::catch(|| dasp_slice::write(&mut a, &src));
+            if r.is_err() || bits(&a) != bits(&src) {
+                let k = (0..l).find(|k| bits(&a[*k..*k + 1]) != bits(&src[*k..*k + 1]));
+                rep.violation("inplace|write|not_bit_exact", format!("L {} variant {}: destination numerically equal to the source beforehand (zero signs flipped); after write frame {:?} holds {:?}, source {:?} ({:?})", l, variant, k, k.map(|k| a[k]), k.map(|k| src[k]), r.err()), &cs);
+                return;
+            }
+            // add_in_place of an (all-zero-valued) source: -0.0 + +0.0 is +0.0
+            let mut a = dst0.clone();
+            let want: Vec<FF> = dst0.iter().zip(&src).map(|(x, y)| x.add_amp(*y)).collect();
+            let r = vmon::catch(|| dasp_slice::add_in_place(&mut a, &src));
+            if r.is_err() || bits(&a) != bits(&want) {
+                rep.violation("inplace|add_in_place|not_bit_exact", format!("L {} variant {}: result differs in bits from the per-frame sum ({:?})", l, variant, r.err()), &cs);
+                return;
+            }
+            // zip_map_in_place with a closure returning its second argument
+            let mut a = dst0.clone();
+            let r = vmon::catch(|| dasp_slice::zip_map_in_place(&mut a, &src, |_x: FF, y: FF| y));
+            if r.is_err() || bits(&a) != bits(&src) {
+                rep.violation("inplace|zip_map_in_place|not_bit_exact", format!("L {} variant {}: |_, y| y did not leave the source's bits ({:?})", l, variant, r.err()), &cs);
+                return;
+            }
+            rep.eval(3);
+            rep.hit("destination_equal_up_to_zero_signs");
+        }
+    }
 }
 
 fn judge<F: PartialEq + std::fmt::Debug>(rep: &mut Report, op: &str, la: usize, lb: usize, r: Result<(), String>, after: &[F], before: &[F], want: &[F], case: &str) {
